@@ -672,7 +672,7 @@ func TestVerif_C10policy(t *testing.T) {
 	}
 	verifkit.Enumerate(k, t, fmt.Sprintf("policy-executions-depth<=%d", depth), true, polEnumerate(depth, polCancels, false), prop)
 	verifkit.Enumerate(k, t, "attempt-bound-48..53-failures", true, polLongBackoff, prop)
-	verifkit.Rapid(k, t, "policy-random-depth<=60", k.N(3000, 100000), polGen(false), prop)
+	verifkit.Rapid(k, t, "policy-random-depth<=60", k.N(3000, 400000), polGen(false), prop)
 }
 
 
@@ -853,8 +853,8 @@ func TestVerif_C11(t *testing.T) {
 	k.Regress(t, func(sub string, raw json.RawMessage) error { return verifkit.Decode(raw, prop) })
 	depth := 3
 	if k.Thorough() {
-		depth = 4
+		depth = 5
 	}
 	verifkit.Enumerate(k, t, fmt.Sprintf("executions-depth<=%d-x-state-failures", depth), true, c11Enumerate(depth), prop)
-	verifkit.Rapid(k, t, "random-sequences-x-state-failures", k.N(3000, 100000), polGen(true), prop)
+	verifkit.Rapid(k, t, "random-sequences-x-state-failures", k.N(3000, 1000000), polGen(true), prop)
 }
